@@ -46,7 +46,10 @@ static void cmap_cps(const Bytes &t, std::vector<u32> &out) {
     for (u32 c : s) if (c && !(c >= 0xD800 && c <= 0xDFFF)) out.push_back(c);
 }
 
-bool font_has_just(const FontImage &fi) {
+static bool font_has_just_impl(const FontImage &fi, bool passes_only);
+bool font_has_just(const FontImage &fi) { return font_has_just_impl(fi, false); }
+bool font_has_just_passes(const FontImage &fi) { return font_has_just_impl(fi, true); }   // only passes can add or remove slots during gr_seg_justify
+static bool font_has_just_impl(const FontImage &fi, bool passes_only) {
     auto it = fi.tables.find(mktag("Silf")); if (it == fi.tables.end()) return true;
     const Bytes &t = it->second; if (t.size() < 12) return true;
     u32 ver = be32(&t[0]);
@@ -58,7 +61,7 @@ bool font_has_just(const FontImage &fi) {
         size_t q = be32(&t[p]); if (ver >= 0x00030000) q += 8;
         if (q + 20 > t.size()) return true;
         unsigned numPasses = t[q + 6], jPass = t[q + 9], flags = t[q + 11], numJ = t[q + 19];
-        if (jPass < numPasses || numJ || (flags & 1)) return true;
+        if (jPass < numPasses || (!passes_only && (numJ || (flags & 1)))) return true;
     }
     return false;
 }
@@ -168,6 +171,7 @@ std::vector<u32> gen_text(Rng &r, const std::string &font, size_t maxlen, bool a
     }
     if (!in.pseudo.empty() && (g_pseudo_bias ? r.chance(4, 5) : r.chance(1, 5))) { unsigned n = 1 + r.below(3); for (unsigned q = 0; q < n; ++q) t.insert(t.begin() + long(r.below(u32(t.size() + 1))), r.pick(in.pseudo)); }
     if (adversarial && r.chance(1, 8)) t.push_back(ILL | ILL_TAIL | r.below(0x400000));
+    if (adversarial && t.size() >= 2 && r.chance(1, 40)) t.insert(t.begin() + long(r.below(u32(t.size()))), NUL_ITEM);   // an embedded U+0000, never as the last item
     for (auto &c : t) c = sanitize_item(c);
     return t;
 }
